@@ -214,7 +214,7 @@ def writer_reads_after_lock(ctx, rule='C09.writer-reads-after-lock'):
     if wl is None:
         return [unresolved(rule, 'writer lock')]
     sites = []
-    reach_hdr = {g for g in F.fns if hdr in F.reachable_fns([g])}
+    reach_hdr = {g for g in F.fns if hdr in F.reachable_fns([g])} | set(getattr(ctx.A, 'hdr_helpers', ()))
     for bb, t, target, c in F.call_sites(bf):
         if bb not in li.reach:
             continue
